@@ -64,6 +64,10 @@ def _write_session(TdmsWriter, ChannelObject, path, mode, segs, e, pos):
                 g, c = components(o["p"])
                 objs.append(ChannelObject(g, c, arr))
             w.write_segment(objs)
+        if mode == "a" or len(segs) == 0 or True:
+            from nptdms import RootObject, GroupObject
+            # a segment without any channel data: file and group properties only
+            w.write_segment([RootObject({"note": "session %s" % mode}), GroupObject("grp", {"n": 1})])
 
 
 def replay_index_case(case):
